@@ -294,7 +294,13 @@ func mutate(r *prng.R, s fseed, seeds []fseed) []byte {
 					v := []uint64{0, 1, 5, 100, 1 << 40, 1<<63 - 1, 1<<64 - 1}[r.Intn(7)]
 					binary.LittleEndian.PutUint64(b[5:], v)
 				default:
-					binary.LittleEndian.PutUint32(b[1:], uint32(r.U64()))
+					// dictionary size field: arbitrary, or one of the values around the limits a
+					// reader has to cope with (0, tiny, below and at the minimum, not a power of two)
+					if r.Bool() {
+						binary.LittleEndian.PutUint32(b[1:], uint32(r.Pick(0, 1, 2, 64, 255, 256, 272, 273, 274, 1024, 4095, 4096, 4097, 6144, 65535)))
+					} else {
+						binary.LittleEndian.PutUint32(b[1:], uint32(r.U64()))
+					}
 				}
 			}
 		default: // container edit with re-sealed CRC32s (xz)
@@ -513,7 +519,24 @@ func feedReader(kind string, in []byte, dict int) (outcome, violation, what stri
 	var cerr, rerr error
 	total := 0
 	stall := ""
+	if len(in) == 0 {
+		in = []byte{}
+	}
 	pn := mon.Guard(func() {
+		// one input in a hundred goes through the convenience constructors (zero-value
+		// configuration: the defaults decide)
+		defaults := len(in) > 0 && (len(in)*31+int(in[len(in)/2]))%100 == 0
+		switch {
+		case defaults && kind == "xz":
+			lr, cerr = xz.NewReader(src)
+		case defaults && kind == "lzma":
+			lr, cerr = lzma.NewReader(src)
+		case defaults && kind == "lzma2":
+			lr, cerr = lzma.NewReader2(src)
+		}
+		if defaults && kind != "xz-single" {
+			kind = "done"
+		}
 		switch kind {
 		case "xz":
 			lr, cerr = xz.ReaderConfig{DictCap: 4096}.NewReader(src)
